@@ -208,9 +208,10 @@ package index
 // returns with the lock set it was entered with.
 
 //@ type Writer
-//@   props C15 C05
+//@   props C15 C05 C04
 //@   guarded_by(rootLock) root, rootPersisted, persistedCallbacks
 //@   atomic_only nextSegmentID
+//@   immutable segPlugin
 
 //@ type Snapshot
 //@   props C15 C04
@@ -292,6 +293,7 @@ package index
 //@   props C02 C14 C11
 //@   heap_wf
 //@   requires snapshot != nil
+//@   requires [writer-has-its-segment-plugin] s != nil && s.segPlugin != nil
 //@   ensures [durable-on-success] err == nil ==> snpOnDisk[snapshot.epoch]
 //@   ensures [segments-durable-on-success] err == nil ==> (forall k int :: 0 <= k && k < len(snapshot.segment) ==> (snapshot.segment[k].segment.persisted || segOnDisk[snapshot.segment[k].id]))
 //@   at call Commit: assert [commit-after-snapshot-on-disk] snpOnDisk[snapshot.epoch]
@@ -303,6 +305,7 @@ package index
 //@   props C02 C14
 //@   heap_wf
 //@   requires snapshot != nil
+//@   requires [writer-has-its-segment-plugin] s != nil && s.segPlugin != nil
 //@   ensures [equivalent-snapshot-durable] (result0 && result1 == nil) ==> snpOnDisk[snapshot.epoch]
 
 // asyncFailures counts background operations that failed for a reason other than shutdown;
@@ -320,6 +323,7 @@ package index
 //@ func Writer.persistSnapshot
 //@   props C02 C14
 //@   requires snapshot != nil
+//@   requires [writer-has-its-segment-plugin] s != nil && s.segPlugin != nil
 //@   modifies asyncFailures, segOnDisk, snpOnDisk, openHandles
 //@   assume_frame
 //@   ensures [durable-on-success] result == nil ==> snpOnDisk[snapshot.epoch]
@@ -344,6 +348,7 @@ package index
 //@ func Writer.persisterLoop
 //@   props C02 C14
 //@   check nilfunc
+//@   requires [writer-has-its-segment-plugin] s != nil && s.segPlugin != nil
 //@   requires asyncErrorsFired >= asyncFailures
 //@   loop 1
 //@     invariant [every-failed-persist-is-reported] asyncErrorsFired >= asyncFailures
